@@ -114,15 +114,22 @@ def run_refactor(rid: str, prop: str, repo: str) -> Dict:
     return {"name": f"refactor/{rid}", "property": prop, "expect": "silence", "status": "ALARM", "rules": r["rules"], "detail": r["first"]}
 
 
-def run_for_property(prop: str, repo: str) -> List[Dict]:
-    out = [run_witness(w, repo) for w in WITNESSES if w["property"] == prop]
+def run_for_property(prop: str, repo: str, jobs: int = 16) -> List[Dict]:
+    """mutation witnesses + seeded patches of `prop` (must fire) and all behaviour-preserving refactorings (must stay silent), in parallel."""
+    tasks = [("w", i, repo) for i, w in enumerate(WITNESSES) if w["property"] == prop]
     sd = os.path.join(VERIF, "seeded")
     if os.path.isdir(sd):
         for sid in sorted(os.listdir(sd)):
             mp = os.path.join(sd, sid, "meta.json")
             if os.path.exists(mp) and json.load(open(mp)).get("property") == prop:
-                out.append(run_seeded(sid, repo))
-    return out
+                tasks.append(("s", sid, repo))
+    rd = os.path.join(VERIF, "refactors")
+    if os.path.isdir(rd):
+        tasks += [("r", (rid, prop), repo) for rid in sorted(os.listdir(rd)) if os.path.exists(os.path.join(rd, rid, "patch.diff"))]
+    if not tasks:
+        return []
+    with ProcessPoolExecutor(max_workers=min(jobs, len(tasks))) as ex:
+        return list(ex.map(_job, tasks))
 
 
 def _job(args):
